@@ -27,9 +27,9 @@ SPEC = {
 
 def bounds(tier):
     if tier == "quick":
-        return {"shapes": "W-DIG(n<=4, arcs<=7) + W-NAMED", "B": 2, "orders": "all per-node out-arc orders", "layers": [1, 2],
+        return {"shapes": "W-DIG(n<=4, arcs<=7) + W-NAMED + cyclic 5-node digraphs with <=6 arcs", "B": 2, "orders": "all per-node out-arc orders", "layers": [1, 2],
                 "noise": [0, 1e-7, -1e-7], "additional_start_end": "none"}
-    return {"shapes": "W-DIG(n<=4, arcs<=8) + W-NAMED", "B": 3, "orders": "all per-node out-arc orders", "layers": [1, 2],
+    return {"shapes": "W-DIG(n<=4, arcs<=8) + W-NAMED + cyclic 5-node digraphs with <=6 arcs", "B": 3, "orders": "all per-node out-arc orders", "layers": [1, 2],
             "noise": [0, 1e-7, -1e-7], "additional_start_end": "none + every single inner node as start / as end"}
 
 
@@ -45,7 +45,7 @@ def _orders(names, arcs):
 def cases(tier, seed):
     amax = 7 if tier == "quick" else 8
     B = 2 if tier == "quick" else 3
-    shapes = world.dig_shapes(4, amax) + world.named_shapes()
+    shapes = world.dig_shapes(4, amax) + world.named_shapes() + [x for x in world.dig_shapes(5, 6, selfloops=False) if x[0] == 5 and not world.is_acyclic(*x)]
     seen = set()
     for idx, shp in enumerate(shapes):
         if shp in seen:
